@@ -133,26 +133,3 @@ func VerifC02KernelCached() { c02Kernel(2, 2, 1, 2, true) }
 func VerifC02OnePass()      { c02Kernel(2, 1, 2, 3, false) }
 func VerifC02Wide()         { c02Kernel(3, 2, 1, 3, false) }
 func VerifC02ThreePass()    { c02Kernel(2, 3, 1, 2, false) }
-
-// VerifC02Step: one report from an arbitrary gauge state.
-func VerifC02Step() {
-	g := newGauge(logCachedGauge{})
-	g.curr = verifrt.Uint64("curr")
-	g.updated = verifrt.Uint64("flag")
-	verifrt.Assume(g.updated <= 1)
-	curr, flag := g.curr, g.updated
-	if verifrt.Choose("cached", 2) == 1 {
-		g.cachedReport()
-	} else {
-		g.report("g", nil, logReporter{})
-	}
-	verifrt.Assert("c02.step.delivered-iff-flag", (verifrt.LogLen() == 1) == (flag == 1))
-	if verifrt.LogLen() == 1 {
-		verifrt.Assert("c02.step.value-bit-for-bit", verifrt.LogAt(0) == curr)
-	}
-	verifrt.Assert("c02.step.flag-cleared", g.updated == 0 && g.curr == curr)
-	v := verifrt.Float64("v")
-	g.Update(v)
-	verifrt.Assert("c02.step.update", g.updated == 1 && g.curr == fbits(v))
-	verifrt.Reach("c02.step.end")
-}
